@@ -13,7 +13,9 @@ Record gomethod := mkGM {
   gm_recv_name : string;
   gm_params : list string;       (* parameter names *)
   gm_locals : list string;       (* variables declared at the top level of the body *)
-  gm_quals : list string }.      (* package qualifiers used INSIDE the scope of a same-named receiver / parameter / local *)
+  gm_quals : list string;        (* package qualifiers used INSIDE the scope of a same-named receiver / parameter / local *)
+  gm_inner : list string }.      (* variables of a nested block that hide a variable of the function and are then used,
+                                    in that block, as the slice of append(x, ..) or the receiver of x.M(..) *)
 
 Record gofile := mkGF {
   gf_name : string;
@@ -33,7 +35,8 @@ Open Scope N_scope.
     3 a file uses a package qualifier it does not import
     4 a file imports a package it does not use
     5 receiver, parameters and top-level locals of a function are not pairwise distinct
-    6 a parameter or local shadows a package qualifier the function uses *)
+    6 a parameter or local shadows a package qualifier the function uses
+    7 a variable of a nested block hides a variable of the function that the block still needs *)
 Definition pkg_wf (files : list gofile) : N :=
   let decls := filter (fun d => negb (String.eqb d "_")) (flat_map gf_decls files) in
   if negb (nodup_str decls) then 1
@@ -49,4 +52,5 @@ Definition pkg_wf (files : list gofile) : N :=
     else if existsb (fun m => negb (nodup_str (filter (fun x => negb (String.eqb x "_") && negb (String.eqb x ""))
                                                      (gm_recv_name m :: gm_params m ++ gm_locals m)))) methods then 5
     else if existsb (fun m => negb (Nat.eqb (List.length (gm_quals m)) 0)) methods then 6
+    else if existsb (fun m => negb (Nat.eqb (List.length (gm_inner m)) 0)) methods then 7
     else 0.
